@@ -626,10 +626,13 @@ func (g *fastGenerator) unmarshalMapField(varName string, field *protogen.Field)
 		g.decodeFixed32(varName+"temp", "uint32")
 		g.P(varName, ` = `, g.Ident("math", "Float32frombits"), `(`, varName, `temp)`)
 	case protoreflect.Int64Kind:
+		g.P(varName, ` = 0`)
 		g.decodeVarint(varName, "int64")
 	case protoreflect.Uint64Kind:
+		g.P(varName, ` = 0`)
 		g.decodeVarint(varName, "uint64")
 	case protoreflect.Int32Kind:
+		g.P(varName, ` = 0`)
 		g.decodeVarint(varName, "int32")
 	case protoreflect.Fixed64Kind:
 		g.decodeFixed64(varName, "uint64")
@@ -690,9 +693,11 @@ func (g *fastGenerator) unmarshalMapField(varName string, field *protogen.Field)
 		g.P(`copy(`, varName, `, dAtA[iNdEx:postbytesIndex])`)
 		g.P(`iNdEx = postbytesIndex`)
 	case protoreflect.Uint32Kind:
+		g.P(varName, ` = 0`)
 		g.decodeVarint(varName, "uint32")
 	case protoreflect.EnumKind:
 		goTypV, _ := g.FieldGoType(field)
+		g.P(varName, ` = 0`)
 		g.decodeVarint(varName, goTypV)
 	case protoreflect.Sfixed32Kind:
 		g.decodeFixed32(varName, "int32")
